@@ -87,6 +87,8 @@ def run_one(m, props_filter, validate, keep, tier):
         seed_cache(root)
         env = dict(os.environ, VERIF_REPO=root, VERIF_EVIDENCE_DIR=os.path.join(base, "evidence"))
         props = m["props"] if not props_filter else [p for p in m["props"] if p in props_filter]
+        if os.environ.get("SELFTEST_ALL_PROPS") and m.get("kind") != "preserving":
+            props = ["C%02d" % i for i in range(1, 21)]
         if m.get("kind") == "preserving":
             props = props_filter or ["C%02d" % i for i in range(1, 21)]
         outs = {}
@@ -102,7 +104,10 @@ def run_one(m, props_filter, validate, keep, tier):
                 res["detail"] += "\n[%s] false alarm:\n%s" % (p, outs[p][1][-1500:])
         else:
             missed = []
+            res["cross"] = sorted(p for p, (rc, o) in outs.items() if rc != 0 and p not in m["props"])
             for p, (rc, o) in outs.items():
+                if p not in m["props"]:
+                    continue
                 hit = rc == 1 and "VIOLATION property=%s" % p in o
                 if hit and m.get("expect_text"):
                     hit = m["expect_text"] in o
@@ -149,7 +154,7 @@ def main():
             results.append(r)
             print("%-8s %-34s %-10s %5.1fs %s" % ("ok" if r["ok"] else "MISSED" if r["kind"] != "preserving" else "FALSE-ALARM",
                                                    r["id"], ",".join(r["expect"]), r["wall_s"],
-                                                   "" if r["ok"] and r.get("tests_pass", True) else r["detail"][:3000]))
+                                                   ("cross=" + ",".join(r.get("cross", [])) if r.get("cross") else "") if r["ok"] and r.get("tests_pass", True) else r["detail"][:3000]))
             sys.stdout.flush()
     ok = sum(1 for r in results if r["ok"])
     print("selftest: %d/%d as expected" % (ok, len(results)))
